@@ -153,7 +153,9 @@ func (core *JApiCore) processEOF() *jerr.JApiError {
 	if je := core.processCurrentDirective(); je != nil {
 		return je
 	}
-	if core.HasUnclosedExplicitContext() {
+	// An included file is pasted into the including one, which may have opened a context
+	// around the INCLUDE: only the end of the root file has to find everything closed.
+	if core.scannersStack.Empty() && core.HasUnclosedExplicitContext() {
 		return core.japiError("not all explicit contexts are closed", core.scanner.CurrentIndex()-1)
 	}
 	return nil
